@@ -273,3 +273,89 @@ class FakeFS:
             def __getattr__(self, n):
                 raise StubLimit("file.%s not modelled" % n)
         return F()
+
+
+class HavocSet:
+    """Stand-in for the builtin set/frozenset as seen by the code under test.  Documented contract: an unordered
+    collection of distinct elements - membership, size and set algebra are exact, the ITERATION ORDER is arbitrary.
+    (In CPython that order follows hash values, i.e. object addresses or PYTHONHASHSEED - ambient process state.)
+    The order of every iteration is chosen by the symbolic stream `HavocSet.order` (Lehmer code)."""
+    order = []
+    _k = 0
+    iterated = 0
+
+    def __init__(self, it=()):
+        self._items = []
+        for x in it:
+            self.add(x)
+
+    def add(self, x):
+        for y in self._items:
+            if y is x or y == x:
+                return
+        self._items.append(x)
+
+    def discard(self, x):
+        self._items = [y for y in self._items if not (y is x or y == x)]
+
+    def remove(self, x):
+        if x not in self:
+            raise KeyError(x)
+        self.discard(x)
+
+    def __contains__(self, x):
+        for y in self._items:
+            if y is x or y == x:
+                return True
+        return False
+
+    def __len__(self):
+        return len(self._items)
+
+    def __bool__(self):
+        return len(self._items) > 0
+
+    def __iter__(self):
+        HavocSet.iterated += 1
+        pool = list(self._items)
+        out = []
+        while pool:
+            o = HavocSet.order[HavocSet._k % len(HavocSet.order)] if HavocSet.order else 0
+            HavocSet._k += 1
+            j = 0
+            for c in range(len(pool)):
+                if o % len(pool) == c:
+                    j = c
+            out.append(pool.pop(j))
+        return iter(out)
+
+    def _new(self, items):
+        return type(self)(items)
+
+    def intersection(self, *others):
+        return self._new([x for x in self._items if all(x in HavocSet(o) for o in others)])
+
+    def union(self, *others):
+        r = self._new(self._items)
+        for o in others:
+            for x in o:
+                r.add(x)
+        return r
+
+    def difference(self, *others):
+        return self._new([x for x in self._items if not any(x in HavocSet(o) for o in others)])
+
+    __and__ = lambda self, o: self.intersection(o)
+    __or__ = lambda self, o: self.union(o)
+    __sub__ = lambda self, o: self.difference(o)
+
+    def issubset(self, o):
+        return all(x in HavocSet(o) for x in self._items)
+
+    def __eq__(self, o):
+        return isinstance(o, HavocSet) and len(o) == len(self) and self.issubset(o)
+
+    __hash__ = None
+
+    def __getattr__(self, n):
+        raise StubLimit("set.%s not modelled" % n)
